@@ -32,8 +32,11 @@ def stim_rows(op, k_targets):
     rows = []
     for r in range(nrows):
         row = [uval(op["seed"], f"ext{r}", j, lo, hi) for j in range(L)]
+        if op.get("zero_from") is not None:
+            row = [x if j < op["zero_from"] else 0.0 for j, x in enumerate(row)]
         if op.get("pattern") == "step":
-            a, b = sorted([op["seed"] % max(L, 1), (op["seed"] // 7) % max(L, 1)])
+            Lp = int(op.get("pattern_len", L))
+            a, b = sorted([op["seed"] % max(Lp, 1), (op["seed"] // 7) % max(Lp, 1)])
             row = [x if a <= j <= b else 0.0 for j, x in enumerate(row)]
         rows.append(row)
     return rows
